@@ -262,6 +262,14 @@ def check_draw_pixel(prog, rep):
                 atoms["occupied"] = tv
             elif any(n[0] == "call" and n[1].endswith("is_none") for n in walk(d)) and any(n[0] == "call" and n[1].endswith("get_pixel") for n in walk(d)):
                 atoms["occupied"] = not tv
+            elif d[0] == "discr" and strip_refs(d[1])[0] == "call" and strip_refs(d[1])[1].endswith("get_pixel") and isinstance(lit, tuple) and lit:
+                # `match self.get_pixel(point) { Some(_) => .., None => .. }`: Option's discriminant, None = 0, Some = 1
+                if lit[0] == "not":
+                    atoms["occupied"] = 1 not in lit[1:]
+                elif lit[0] == "any":
+                    atoms["?" + show(d, maxd=3)] = tv
+                else:
+                    atoms["occupied"] = 1 in lit
             else:
                 atoms["?" + show(d, maxd=3)] = tv
         stores = [b for b in path if blocks[b]["t"] and blocks[b]["t"]["k"] == "call" and blocks[b]["t"]["f"].get("name") in ("set_pixel_unchecked", "set_pixel")]
@@ -309,8 +317,22 @@ def check_draw_pixel(prog, rep):
     # draw_iter forwards every pixel to draw_pixel
     di = prog.method1(MD, "draw_iter", "embedded_graphics_core::draw_target::DrawTarget")
     o = Origins(di)
-    calls = [blocks_t for blocks_t in (b["t"] for b in di.body["blocks"]) if blocks_t and blocks_t["k"] == "call" and blocks_t["f"].get("name") == "draw_pixel"]
-    rep.check(len(calls) == 1, "R20.2", "draw_iter", "MockDisplay::draw_iter must forward each pixel to draw_pixel", at=di.span, fn=di.path)
+    # in the function itself or in the closure it hands to for_each (loops / for_each walked once: one item, one call)
+    from mirq.paths import Paths as _P, Unsupported as _U
+    n_calls, ok_args = 0, True
+    try:
+        for sm in _P(prog, inline=lambda g: prog.is_new(g), loops="once").of(di):
+            cs = [e[1] for e in sm.effects if e[0] == "call" and e[1][1].split("::")[-1] == "draw_pixel"]
+            n_calls = max(n_calls, len(cs))
+            for c in cs:
+                # the point and colour of the item: payload of the iteration, fields 0 / 1 of the Pixel
+                ok_args = ok_args and len(c[3]) == 3 and all(any(n[0] in ("payload", "arg") or (n[0] == "call" and n[1].split("::")[-1] == "next") for n in walk(a)) for a in c[3][1:])
+    except _U:
+        n_calls = 0
+    if n_calls == 0:
+        fam = [di] + list(prog.closures_of.get(di.id, []))
+        n_calls = sum(1 for g in fam for b in g.body["blocks"] if b["t"] and b["t"]["k"] == "call" and b["t"]["f"].get("name") == "draw_pixel")
+    rep.check(n_calls == 1 and ok_args, "R20.2", "draw_iter", "MockDisplay::draw_iter must forward each pixel to draw_pixel", at=di.span, fn=di.path)
 
 
 def check_indexing(prog, rep):
@@ -355,38 +377,42 @@ def subst_size(t):
 
 
 def check_affected_area(prog, rep):
+    """R20.3 affected_area = with_corners(component-wise minimum, component-wise maximum) of the touched cells.
+    Rectangle::with_corners orders its corners itself, so which accumulator is handed over first does not matter; what
+    matters (and is shape independent: fold with closures, a loop with two accumulators, a small accumulator struct) is
+    that in the function, its closures and the helpers introduced for it there is exactly one component_min and one
+    component_max accumulation, both fed with a point of the display, that exactly one with_corners call combines two
+    different values, and that cells are tested for being touched."""
     aa = prog.method1(MD, "affected_area", None)
-    clos = prog.closures_of.get(aa.id, [])
-    found = {}
-    for c in clos:
-        for cc in [c] + prog.closures_of.get(c.id, []):
-            ro = strip_refs(Origins(cc).return_origin())
-            for op in ("min", "max"):
-                if ro[0] == "call" and ro[1].endswith("Point::component_" + op):
-                    found[op] = cc.key()
-    # fold closure returns (tl.map(min).or(Some(point)), br.map(max).or(Some(point)))
-    fold_ok = False
-    for c in clos:
-        ro = strip_refs(Origins(c).return_origin())
-        m = match(ro, ("agg", "tuple", ("?a", "?b")))
-        if m is None:
-            continue
-
-        def which(t):
-            for n in walk(t):
-                if n[0] == "agg" and str(n[1]).startswith("closure:"):
-                    cid = n[1][len("closure:"):]
-                    r = strip_refs(Origins(prog.fns[cid]).return_origin())
-                    if r[0] == "call" and r[1].endswith("component_min"):
-                        return "min"
-                    if r[0] == "call" and r[1].endswith("component_max"):
-                        return "max"
-            return None
-        fold_ok = which(m["?a"]) == "min" and which(m["?b"]) == "max"
-    ro = strip_refs(Origins(aa).return_origin())
-    wc = find(ro, ("call", "*Rectangle::with_corners", "_", ("?a", "?b")))
-    rep.check(fold_ok and bool(wc), "R20.3", "affected_area", "affected_area must fold component_min into the first and component_max into the second accumulator and return with_corners(first, second)",
-              at=aa.span, fn=aa.path, detail=found)
+    fam = [aa] + prog.new_helpers_of(aa)
+    i = 0
+    while i < len(fam):
+        fam.extend(c for c in prog.closures_of.get(fam[i].id, []) if c not in fam)
+        i += 1
+    n = {"component_min": 0, "component_max": 0, "with_corners": 0}
+    distinct = True
+    tests_touched = False
+    for g in fam:
+        org = None
+        for bi, b in enumerate(g.body["blocks"]):
+            t = b["t"]
+            if t and t["k"] == "call":
+                nm = t["f"].get("name")
+                p_ = (t["f"].get("resolved") or t["f"]).get("path", "")
+                if nm in ("component_min", "component_max") and "Point" in p_:
+                    n[nm] += 1
+                if nm == "with_corners" and "Rectangle" in p_:
+                    n[nm] += 1
+                    org = org or Origins(g)
+                    a_ = [strip_refs(x) for x in org.term_args(bi)]
+                    distinct = distinct and len(a_) == 2 and a_[0] != a_[1]
+                if nm in ("is_none", "is_some", "filter_map", "flatten", "map") and "option" in p_.lower():
+                    tests_touched = True
+            if t and t["k"] == "switch":
+                tests_touched = True   # a match on the cell (Some / None)
+    ok = n == {"component_min": 1, "component_max": 1, "with_corners": 1} and distinct and tests_touched
+    rep.check(ok, "R20.3", "affected_area", "affected_area must combine exactly one component_min and one component_max accumulation over the touched cells with Rectangle::with_corners; found %s%s" % (n, "" if distinct else ", with_corners gets the same value twice"),
+              at=aa.span, fn=aa.path, detail=n)
 
 
 def check_pattern_space(prog, rep):
@@ -413,8 +439,15 @@ def check_pattern_space(prog, rep):
                         for h in prog.by_path.get(c["ty"]["fndef"], []):
                             if h.body and h.crate == "embedded_graphics" and h not in fam:
                                 fam.append(h)
+    # helpers introduced by an edit that from_pattern (or its closures) call
+    for h in prog.new_helpers_of(fp):
+        if h not in fam:
+            fam.append(h)
+            fam.extend(c for c in prog.closures_of.get(h.id, []) if c not in fam)
     for g in fam[1:]:
         nparam = 2 if g.kind == "closure" else 1
+        if nparam >= len(g.body["locals"]) or g.body["argc"] < nparam:
+            continue
         tab, default = finite_table(prog, g, ("param", nparam, g.body["locals"][nparam].get("name")))
         r = tab.get(32)
         if r is not None and r[0] == "agg" and str(r[1]).endswith("Option::None") and default is not None and default[0] == "agg" and str(default[1]).endswith("Option::Some"):
